@@ -1,0 +1,13 @@
+//go:build verif
+// +build verif
+
+package js_lexer
+
+// Thin wrappers (no logic) used by the verification harness in /verif (property C16).
+
+func VerifDecodeJSXEntities(text string) []uint16 { return decodeJSXEntities(nil, text) }
+
+func VerifJSXEntity(name string) (rune, bool) {
+	value, ok := jsxEntity[name]
+	return value, ok
+}
